@@ -46,7 +46,7 @@ from pyvc.values import SInt, SBool, Sym
 
 GMF = 'elfi/model/graphical_model.py'
 EMF = 'elfi/model/elfi_model.py'
-CLASS_FILE = {'GraphicalModel': GMF, 'ElfiModel': EMF, 'NodeReference': EMF}
+CLASS_FILE = {'GraphicalModel': GMF, 'ElfiModel': EMF, 'NodeReference': EMF, 'InstructionsMapper': EMF}
 
 
 # ====================================================================== class table read from the tree
@@ -429,10 +429,20 @@ class GetParents(C14Contract):
         idx = vc.fresh_fn('args.idx', th.Node, z3.IntSort())
         return SList(n, lambda i: (SParam(key(nxspec._zi(i))), SNodeName(own(nxspec._zi(i)))), ghost=idx)
 
+    def _acc(self):
+        """name of the accumulator list: the local that is bound to an empty list literal before the loop (read from the source,
+        so that renaming it does not matter)"""
+        loc = instrument.locate(self.target)
+        for st in loc.node.body:
+            if isinstance(st, ast.Assign) and isinstance(st.value, ast.List) and not st.value.elts and len(st.targets) == 1 \
+                    and isinstance(st.targets[0], ast.Name):
+                return st.targets[0].id
+        raise OutOfSubset('get_parents: no `name = []` accumulator before the loop')
+
     def _inv(self, s, l):
         from pyvc.core import forall_range
         th, g, c = s.th, s.g0, s.child.t
-        L = l.args
+        L = getattr(l, self._acc())
         if isinstance(L, list):             # before the first iteration the local still holds the python list the code created
             if L:
                 raise OutOfSubset('get_parents: accumulator list is not empty at loop entry')
@@ -448,15 +458,16 @@ class GetParents(C14Contract):
                  th.forall_nodes(lambda p: z3.Implies(z3.And(vis(p), g.pos(p, c)), z3.And(idx(p) >= 0, idx(p) < L.n, own(idx(p)) == p))))]
 
     def _ghost_step(self, s, l0, l1):
-        L = l1.args
+        L = getattr(l1, self._acc())
         if isinstance(L, SList) and L.ghost is not None:
             old, cur_, n1 = L.ghost, l0.it.cur, L.n
             L.ghost = lambda p: z3.If(p == cur_, n1 - 1, old(p))
 
     @property
     def loops(self):
-        L = Loop(inv=self._inv, fresh={'args': self._fresh_args}, ghost_step=self._ghost_step)
-        L.rebind = ('args',)
+        acc = self._acc()
+        L = Loop(inv=self._inv, fresh={acc: self._fresh_args}, ghost_step=self._ghost_step)
+        L.rebind = (acc,)
         return {0: L}
 
     def raises(self, s):
@@ -469,7 +480,7 @@ class GetParents(C14Contract):
         if not isinstance(result, SList):
             raise OutOfSubset('get_parents returned %s' % type(result).__name__)
         head = s.rt.loopstate[0]['head']
-        idx0 = head.args.ghost
+        idx0 = getattr(head, self._acc()).ghost
         srt = s.ctx.vc.libcalls.get('sorted')
         if not srt:
             pos = idx0                      # no sort in the code: the list order is the iteration order (the clause will fail)
@@ -929,15 +940,21 @@ class ParameterNamesSet(C14Contract):
     def _inv(self, s, l):
         th = s.th
         vis = l.it.visited
-        pn = l.parameter_names
-        if not isinstance(pn, SNodeSet):
-            raise OutOfSubset('parameter_names is not a set at the loop head')
+        pn = self._the_set(l)
         return [('the set still holds the given names that were not visited', th.forall_nodes(lambda x: pn.mem(x) == z3.And(s.inP(x), z3.Not(vis(x)))))] + \
             self._marks(s, s.H.snap(), vis)
 
     @property
     def loops(self):
-        return {0: Loop(inv=self._inv, modifies=lambda s, l: [l.parameter_names, s.H])}
+        return {0: Loop(inv=self._inv, modifies=lambda s, l: [self._the_set(l), s.H])}
+
+    @staticmethod
+    def _the_set(l):
+        """the set built from the argument: found by its type among the locals (renaming it does not matter)"""
+        sets = [v for v in vars(l).values() if isinstance(v, SNodeSet)]
+        if len(sets) != 1:
+            raise OutOfSubset('parameter_names setter: expected one set of names among the locals, found %d' % len(sets))
+        return sets[0]
 
     def raises(self, s):
         return {'ValueError': s.th.exists_nodes(lambda x: z3.And(s.inP(x), z3.Not(s.g0.node(x))))}
@@ -980,13 +997,13 @@ def copy_facts(th, g0, h0, gk, h1, elfi, g0_now_same):
                h1.has(r, k) == h0.has(r, k), h1.val(r, k) == h0.val(r, k)))), th.forall_refs(lambda r: z3.Implies(h0.alloc(r), h1.alloc(r))))),
            ("independence: the copy's graph dict and node data dicts are new objects",
             z3.And(z3.Not(h0.alloc(gk.gref)), th.forall_nodes(lambda x: z3.Implies(gk.node(x), z3.Not(h0.alloc(gk.nattr(x))))))),
-           ("independence: no node state dict of the copy is a dict of the original (changing the copy's parameter flags or nodes cannot alter the original)",
+           ("independence: no node state dict of the copy is a dict of the original",
             th.forall_nodes(lambda x: z3.Implies(gk.node(x), z3.Not(mine(srk(x)))))),
            ('the copy is a well-formed model', z3.And(graph_wf(th, gk, h1), edges_have_param(th, gk) == edges_have_param(th, g0), elfi_rep(th, gk, h1, elfi)))]
     if elfi:
         o0, ok = obsref(th, g0, h0), obsref(th, gk, h1)
         out += [('same observed data', z3.And(obs_rep(th, gk, h1), th.forall_keys(lambda k: z3.And(h1.has(ok, k) == h0.has(o0, k), h1.val(ok, k) == h0.val(o0, k))))),
-                ("independence: the copy's observed dict is not a dict of the original (changing the copy's observed data cannot alter the original)",
+                ("independence: the copy's observed dict is not a dict of the original",
                  z3.Not(mine(ok)))]
     return out
 
@@ -1083,11 +1100,79 @@ class Copy(C14Contract):
             [('the copy has the class of the original', z3.BoolVal(result._cls == self.cls))]
 
 
+# ---------------------------------------------------------------------- NodeReference.become
+class RefProxy:
+    """a NodeReference: `name`, `model` are plain attributes; everything else (the `state` property) is the real code"""
+
+    def __init__(self, ctx, name, model):
+        self.__dict__.update(_ctx=ctx, _cls='NodeReference', name=name, model=model, _class_set=None)
+
+    def __getattr__(self, attr):
+        if attr.startswith('_vc_') or attr.startswith('__'):
+            raise AttributeError(attr)
+        return _lookup(self._ctx, self, 'NodeReference', attr)
+
+    def __setattr__(self, attr, value):
+        if attr == '__class__':
+            self.__dict__['_class_set'] = value
+            return
+        self.__dict__[attr] = value
+
+    def _vc_isinstance(self, cls):
+        if isinstance(cls, _Opaque) and cls.what == 'NodeReference':
+            return True
+        if isinstance(cls, SVal):           # the class object stored in a state dict: nothing is known about it
+            return SBool(cur().fresh('isinstance', z3.BoolSort()))
+        raise OutOfSubset('isinstance(<node reference>, %r)' % (cls,))
+
+
+class Become(C14Contract):
+    target = EMF + '::NodeReference.become'
+
+    def __init__(self, same):
+        self.same = same
+        self.label = 'same-model' if same else 'other-model'
+        if not same:
+            self.cover, self.allow_no_obligations = False, True
+
+    def setup(self, vc):
+        s = self.base_setup(vc)
+        ctx, th = s.ctx, s.th
+        rank = z3.Function('rank', th.Node, z3.IntSort())
+        Dp = z3.Function('D', th.Node, z3.BoolSort())
+        ctx.ghost = NS(rank=lambda x: rank(x), N=z3.Int('N'), D=lambda x: Dp(x))
+        ctx.stubs[('ElfiModel', 'update_node')] = make_stub_update_node('elfi')
+        s.node, s.upd = self.name(s, 'self.name'), self.name(s, 'other_node.name')
+        s.me = RefProxy(ctx, s.node, s.m)
+        s.other = RefProxy(ctx, s.upd, s.m if self.same else ModelProxy(ctx, 'ElfiModel', SDiGraph(ctx.H, 'G2', 'sym')))
+        return s, (s.me, s.other), {}
+
+    def requires(self, s):
+        gh = s.ctx.ghost
+        return un_pre(s.th, s.g0, s.h0, s.node.t, s.upd.t, True, gh.rank, gh.N, gh.D)
+
+    def raises(self, s):
+        return {'ValueError': z3.BoolVal(not self.same)}
+
+    def iff_raises(self, s):
+        return [('normal return only if both references belong to one model', z3.BoolVal(self.same))]
+
+    def ensures(self, s, result):
+        gh = s.ctx.ghost
+        g1, h1 = s.G.snap(), s.H.snap()
+        calls = s.ctx.calls.get('update_node', [])
+        return un_facts(s.th, s.g0, s.h0, g1, h1, s.node.t, s.upd.t, 'elfi', gh.rank, gh.N, gh.D) + un_kept(s.th, g1, h1, True) + \
+            [('the other reference now points to the replaced node in the same model',
+              z3.And(z3.BoolVal(s.other.model is s.m and s.me.model is s.m), s.other.name.t == s.node.t, s.me.name.t == s.node.t)),
+             ('the model is edited exactly once', z3.BoolVal(len(calls) == 1))]
+
+
 CONTRACTS = [AddNode(), GetParents(), AddEdge('default'), AddEdge('given'), AddEdge('badtype'),
              RemoveNode('GraphicalModel', 'GraphicalModel'), RemoveNode('GraphicalModel', 'ElfiModel'), RemoveNode('ElfiModel', 'ElfiModel'),
              UpdateNode('GraphicalModel', 'GraphicalModel'), UpdateNode('GraphicalModel', 'ElfiModel'), UpdateNode('ElfiModel', 'ElfiModel'),
              ParameterNamesGet(), ParameterNamesSet(),
-             Copy('GraphicalModel', 'GraphicalModel'), Copy('GraphicalModel', 'ElfiModel'), Copy('ElfiModel', 'ElfiModel')]
+             Copy('GraphicalModel', 'GraphicalModel'), Copy('GraphicalModel', 'ElfiModel'), Copy('ElfiModel', 'ElfiModel'),
+             Become(True), Become(False)]
 
 
 def _ALL():
@@ -1125,3 +1210,40 @@ def _sanity_tree():
     except Exception:
         ok = False
     return [('class table: ElfiModel(GraphicalModel), get_parents inherited', ok)]
+
+
+def bounded(tier, seed):
+    from bounded import c14 as b
+    return [b.run(tier, seed)]
+
+
+_replay_cache = {}
+_RELEVANT = {'get_parents': ['c14:get_parents', 'c14:add'], 'parameter_names': ['c14:parameter_names'],
+             'remove_node': ['c14:remove', 'c14:model_ok', 'c14:become'], 'update_node': ['c14:become', 'c14:model_ok'],
+             'add_node': ['c14:add', 'c14:exception'], 'add_edge': ['c14:add', 'c14:model_ok', 'c14:get_parents'],
+             'copy': ['c14:copy-independence', 'c14:copy-view', 'c14:copy-generate'], 'become': ['c14:become']}
+
+
+def replay_refuted(cname, rf):
+    """look for a failing native input of the executable property for a refuted obligation (the counter-model itself is a
+    symbolic graph; the bounded edit-sequence harness on the real classes is the replay vehicle)"""
+    from bounded import c14 as b
+    if '.copy' in cname and 'independence' in rf.get('kind', ''):
+        j = 1 if 'observed' in rf.get('kind', '') else 0
+        if ('indep', j) not in _replay_cache:
+            _replay_cache[('indep', j)] = b.independence_probe(j)
+        r = _replay_cache[('indep', j)]
+        if r:
+            return dict(found=True, input=r[0], observed=r[1])
+    if 'all' not in _replay_cache:
+        _replay_cache['all'] = b.run('thorough', 0, first_failure_only=False, check_independence=False)
+    fs = _replay_cache['all']['failures']
+    want = [sig for key, sigs in _RELEVANT.items() if key in cname for sig in sigs]
+    for f in sorted(fs, key=lambda f: (f['signature'] not in want)):
+        return dict(found=True, input=f['input'], observed=f['what'], signature=f['signature'])
+    return dict(found=False, searched=_replay_cache['all']['bound'], cases=_replay_cache['all']['cases'])
+
+
+def replay_input(inp):
+    from bounded import c14 as b
+    return b.replay_input(inp)
